@@ -139,17 +139,14 @@ func allocObs(a *boundsAn, ins ssa.Instruction) []boundsOb {
 		return nil
 	}
 	var out []boundsOb
-	for _, sz := range []ssa.Value{ms.Len, ms.Cap} {
-		if sz == nil {
+	for i, sz := range []ssa.Value{ms.Len, ms.Cap} {
+		if sz == nil || (i == 1 && ms.Cap == ms.Len) {
 			continue
 		}
 		if _, isC := sz.(*ssa.Const); isC {
 			continue
 		}
 		if !derivesFromWire(sz, 0) {
-			continue
-		}
-		if sz == ms.Cap && ms.Cap == ms.Len {
 			continue
 		}
 		out = append(out, boundsOb{ins, fmt.Sprintf("peer-chosen allocation size <= %d", maxDatagram), linConst(maxDatagram).sub(a.formOf(sz))})
